@@ -2,9 +2,13 @@
 Data file operations and readers/writers for the Python Iceberg implementation
 """
 
+import math
 import os
+import struct
 import tempfile
 from datetime import datetime, time
+from decimal import Decimal
+from fractions import Fraction
 from typing import TYPE_CHECKING, Any, Dict, Iterator, List, Optional, Tuple, Union
 
 import pyarrow as pa
@@ -33,6 +37,18 @@ logger = get_logger(__name__)
 # temporal ones). pyarrow's Python->Arrow conversion silently TRUNCATES a float
 # given for such a column (1.5 -> 1, -0.5 -> 0) instead of raising.
 _INTEGER_BACKED_TYPES = frozenset({"int", "long", "date", "time", "timestamp"})
+
+
+def _has_fraction(value: Any) -> bool:
+    """True for a real number pyarrow would store in an integer column by dropping
+    its fractional part: float, decimal.Decimal and fractions.Fraction alike
+    (NaN and infinities included - they have no integer value either)."""
+    if isinstance(value, bool) or not isinstance(value, (float, Decimal, Fraction)):
+        return False
+    try:
+        return value != int(value)
+    except (ValueError, OverflowError):  # NaN, +-inf
+        return True
 
 # Exceptions PyArrow raises when data genuinely does not fit a schema. Anything
 # else is a bug in our conversion code and must not be reported as "incompatible".
@@ -551,6 +567,10 @@ class DataFileManager:
             if isinstance(f.get("type"), str) and f.get("type") in _INTEGER_BACKED_TYPES
         }
 
+        float32_fields = [
+            str(f["name"]) for f in iceberg_schema.fields if f.get("type") == "float"
+        ]
+
         for i, record in enumerate(records):
             unknown = {str(k) for k in record.keys()} - allowed
             if unknown:
@@ -565,7 +585,7 @@ class DataFileManager:
                     )
             for name, f_type in integer_backed.items():
                 value = record.get(name)
-                if isinstance(value, float) and not value.is_integer():
+                if _has_fraction(value):
                     raise ValueError(
                         f"Record {i}: {value!r} for field '{name}' ({f_type}) has a fractional "
                         f"part (or is NaN/inf) that the column type cannot represent. "
@@ -576,6 +596,18 @@ class DataFileManager:
                         f"Record {i}: {value!r} for date field '{name}' carries a time of day "
                         f"(or a timezone) that a date cannot represent. Refusing to silently drop it."
                     )
+
+            for name in float32_fields:
+                value = record.get(name)
+                if isinstance(value, float) and math.isfinite(value):
+                    try:
+                        struct.pack("f", value)
+                    except OverflowError:
+                        raise ValueError(
+                            f"Record {i}: {value!r} for field '{name}' (float) is outside the "
+                            f"32-bit float range and would be stored as infinity. Refusing to "
+                            f"silently alter it; declare the column as double."
+                        ) from None
 
     def write_data_file(
         self,
